@@ -1,6 +1,9 @@
 package checks
 
-import "math/big"
+import (
+	"math/big"
+	"reflect"
+)
 
 // normNumber renders a JSON number literal as an exact rational (arbitrary precision).
 func normNumber(lit string) string {
@@ -9,4 +12,16 @@ func normNumber(lit string) string {
 		return "nan:" + lit
 	}
 	return r.RatString()
+}
+
+// normKey maps every Go integer kind to int64 (COSE labels are integers whatever Go type carried them).
+func normKey(key any) any {
+	v := reflect.ValueOf(key)
+	switch v.Kind() {
+	case reflect.Int, reflect.Int8, reflect.Int16, reflect.Int32, reflect.Int64:
+		return v.Int()
+	case reflect.Uint, reflect.Uint8, reflect.Uint16, reflect.Uint32, reflect.Uint64:
+		return int64(v.Uint())
+	}
+	return key
 }
